@@ -1,7 +1,7 @@
 """Doctests with by-construction outcomes (shared by C10 and C15)."""
 
 KINDS = ['pass', 'failout', 'failexc', 'allskip', 'partskip', 'expexc', 'disabled', 'comment',
-         'failcompile', 'faildirective', 'warnfail', 'warnpass']
+         'failcompile', 'faildirective', 'warnfail', 'warnpass', 'expexconly']
 EXTRA_KINDS = ['ell', 'igws']      # outcome depends on a default directive (C15)
 
 # TR is replaced by a statement appending the doctest's name to a trace file
@@ -17,6 +17,8 @@ BODY = {
     # fail before anything has been executed or logged (found when the first part is compiled / its directive parsed)
     'failcompile': ['>>> return 5'],
     'faildirective': ['>>> x = 1  # xdoctest: +REQUIRES(bogus)'],
+    # every executed part ends in an accepted exception (nothing executes "normally")
+    'expexconly': ['>>> 1/0', 'Traceback (most recent call last):', 'ZeroDivisionError: division by zero'],
     # a recorded run-time warning together with a failure / a pass
     'warnfail': ['TR', '>>> import warnings', '>>> warnings.warn("w-fail")', '>>> 1/0'],
     'warnpass': ['TR', '>>> import warnings', '>>> warnings.warn("w-pass")', '>>> print("a")', 'a'],
@@ -30,6 +32,10 @@ def outcome(kind, opt=None, named=False):
     """expected outcome: passed / failed / skipped / disabled(absent natively, skipped in pytest)"""
     if kind == 'disabled' and not named:
         return 'disabled'
+    if kind == 'faildirective':
+        # a malformed directive is diagnosed when the directives of the part are parsed, before SKIP is
+        # consulted: it fails under every default option (C09 asks for exactly that failure)
+        return 'failed'
     if opt == '+SKIP':
         return 'skipped'
     if kind in ('allskip', 'comment'):
